@@ -436,6 +436,66 @@ func checkLimit(prop string, sc *LimitSc, res *simrt.Result) Verdict {
 			v.probe("eager-class")
 		}
 
+		// No extra throttling, for every arrival pattern as long as the consumer is always
+		// ready: element j leaves no later than it became available, than its predecessor
+		// left, or than one Interval after the element Quantity positions before it left
+		// (exact in simulated time; the same bound with the close of the input as a virtual
+		// last element covers "closes promptly").
+		if len(sc.ConsDel) == 0 && sc.StallAt == 0 && len(v.Viol) == 0 {
+			avail := map[int64]int64{}
+
+			for _, r := range res.Hist {
+				if r.Kind == simrt.KNote && r.Note == "write-start" {
+					avail[r.Val] = r.T - t0
+				}
+			}
+
+			bound := func(j int, a int64) int64 {
+				b := a
+
+				if j > 0 {
+					b = max(b, sends[j-1].t)
+				}
+
+				if uint64(j) >= q {
+					b = max(b, sends[j-int(q)].t+iv)
+				}
+
+				return b
+			}
+
+			for j, s := range sends {
+				a := max(avail[s.val], 0) // prefilled elements were available at creation
+
+				if b := bound(j, a); s.t > b {
+					v.fail("extra-throttling", "element #%d was available at t=%dns and left at t=%dns; the rate (%d per %dns) and the ready consumer allow t=%dns",
+						j+1, a, s.t, q, iv, b)
+
+					break
+				}
+			}
+
+			if outClosed >= 0 && inClosed >= 0 && len(sends) == len(written) {
+				var closeT, inCloseT int64
+
+				for _, r := range res.Hist {
+					if r.Seq == outClosed {
+						closeT = r.T - t0
+					}
+
+					if r.Seq == inClosed {
+						inCloseT = r.T - t0
+					}
+				}
+
+				if b := bound(len(sends), max(inCloseT, 0)); closeT > b && len(v.Viol) == 0 {
+					v.fail("late-close", "input closed at t=%dns after %d elements, output closed at t=%dns; the rate and the ready consumer allow t=%dns", inCloseT, len(sends), closeT, b)
+				}
+			}
+
+			v.probe("ready-consumer-run")
+		}
+
 		if len(written) == 0 {
 			v.probe("zero-elements")
 		}
@@ -486,13 +546,30 @@ func checkGoroutines(v *Verdict, res *simrt.Result, termSeq int64, how string, s
 		return
 	}
 
-	if !strict {
-		return
+	var termT int64
+
+	for _, r := range res.Hist {
+		if r.Seq == termSeq {
+			termT = r.T
+		}
 	}
 
 	for _, r := range res.Hist {
-		if r.Kind == simrt.KExit && r.Lib && r.Seq > termSeq {
+		if r.Kind != simrt.KExit || !r.Lib || r.Seq <= termSeq {
+			continue
+		}
+
+		if strict {
 			v.fail("goroutine-outlives-call", "%s (seq %d) while goroutine %d started at %s was still running (it exited at seq %d)", how, termSeq, r.Task, r.TaskName, r.Seq)
+			return
+		}
+
+		// closure-based termination: whoever observes the closure may finish after it,
+		// but at once - a goroutine that is still there after simulated time has passed
+		// was waiting for something (a release, a timer) after the discipline had
+		// announced its termination
+		if r.T > termT {
+			v.fail("goroutine-lingers-after-close", "%s at t=%dns, goroutine %d started at %s was still there and exited only at t=%dns", how, termT, r.Task, r.TaskName, r.T)
 			return
 		}
 	}
